@@ -24,6 +24,7 @@ package c18
 import (
 	"fmt"
 	"os"
+	"path/filepath"
 	"reflect"
 	"regexp"
 	"strconv"
@@ -45,6 +46,7 @@ type RCase struct {
 	Style  int       `json:"style,omitempty"`  // as in Case
 	Opts   ROpts     `json:"opts"`             //
 	Target int       `json:"target,omitempty"` // selects the typed target every setting is forced into after a successful load
+	File   int       `json:"file,omitempty"`   // how the file is named and how its path is spelled, see writeDocNamed
 }
 
 // ROpts is an option set as data; build makes fresh option values of it for every call.
@@ -535,6 +537,48 @@ func depthLabel(d int) string {
 }
 
 // ---------------------------------------------------------------------------
+// the file and its name
+
+var (
+	fileNames     = []string{"c18-doc-%d.cfg", "c18 doc %d.yml", "c18-%%d%%s%%!-%d.json", "c18-é日本-%d.hjson", "c18-doc-%d", "c18-'q'-%d.cfg", "c18: #%d.yaml", "c18-(source)-%d.conf"}
+	fileSpellings = []string{"absolute", "absolute with /./", "absolute with //", "absolute with dir/../dir", "relative to the working directory"}
+)
+
+// writeDocNamed writes the document into the work directory under one of several kinds of names and returns the
+// path spelled in one of several ways; that spelling is the name the loaders get, so it is the source they record.
+func writeDocNamed(text []byte, sel int) (path string, spelling int, err error) {
+	e := runlog.Env()
+	sel = abs(sel)
+	base := fmt.Sprintf(fileNames[sel%len(fileNames)], fileSeq.Add(1))
+	base = fmt.Sprintf("p%d-s%d-%s", os.Getpid(), e.Shard, base)
+	dir := filepath.Clean(e.OutDir)
+	clean := filepath.Join(dir, base)
+	if err := os.WriteFile(clean, text, 0o644); err != nil {
+		return clean, 0, err
+	}
+	spelling = sel / len(fileNames) % len(fileSpellings)
+	path = clean
+	switch spelling {
+	case 1:
+		path = dir + "/./" + base
+	case 2:
+		path = dir + "//" + base
+	case 3:
+		path = dir + "/../" + filepath.Base(dir) + "/" + base
+	case 4:
+		if wd, err := os.Getwd(); err == nil {
+			if rel, err := filepath.Rel(wd, clean); err == nil {
+				path = rel
+			}
+		}
+	}
+	if _, err := os.Stat(path); err != nil {
+		path, spelling = clean, 0 // e.g. the work directory is reached through a symbolic link
+	}
+	return path, spelling, nil
+}
+
+// ---------------------------------------------------------------------------
 // the oracle
 
 func runReject(c RCase, r *runlog.R) error {
@@ -562,7 +606,7 @@ func runReject(c RCase, r *runlog.R) error {
 			return nil
 		}
 	}
-	file, err := writeDoc(text)
+	file, spelling, err := writeDocNamed(text, c.File)
 	defer os.Remove(file)
 	if err != nil {
 		return fmt.Errorf("harness: cannot write the document: %v", err)
@@ -719,6 +763,8 @@ func runReject(c RCase, r *runlog.R) error {
 		r.Class("top-level scalar")
 	}
 	r.Class("depth " + depthLabel(c.Doc.Depth()))
+	r.Class("file path " + fileSpellings[spelling])
+	r.Class("file name like " + fmt.Sprintf(fileNames[abs(c.File)%len(fileNames)], 1))
 	// non-trivial: the library refused the document at load time under at least one of the option sets
 	r.NonTrivialIf(refused)
 	return nil
@@ -931,6 +977,9 @@ func (g *rgen) list(t *rapid.T, depth int) *gen.Tree {
 
 func genReject(t *rapid.T) RCase {
 	c := RCase{Style: pick(t, 4, "style"), Target: pick(t, len(forcedTargets), "target")}
+	if pick(t, 2, "plainfile") != 0 {
+		c.File = pick(t, len(fileNames)*len(fileSpellings), "file")
+	}
 	o := &c.Opts
 	o.Sep = rapid.SampledFrom([]string{".", "", ".", "/", ".", "::", ".", ""}).Draw(t, "sep")
 	o.VarExp = pick(t, 5, "varexp") < 2
@@ -948,7 +997,7 @@ func genReject(t *rapid.T) RCase {
 	}
 	depth := runlog.Pick(3, 4)
 	switch k := pick(t, 20, "top"); {
-	case k == 0:
+	case k == 0 && pick(t, 2, "scalar") == 0:
 		c.Doc = g.prim(t)
 	case k <= 4:
 		c.Doc = g.list(t, depth)
@@ -960,7 +1009,7 @@ func genReject(t *rapid.T) RCase {
 
 var subReject = runlog.Register(&runlog.Sub[RCase]{
 	Name: "rejections",
-	Rule: "TO BE WRITTEN",
+	Rule: "Documents built to be REFUSED AT LOAD TIME or to come close (any JSON value at the top: object, list, 4 % scalars; depth <= 3/4, width <= 4/5): keys of 1-3 segments over a small pool of names (incl. case variants a/A, b/B) and of spellings of list indices (0 00 -0 +0 0x0, 1 01 +1 0x1 0b1 0o1, 8 010 0x8, 10 1_0 012 0xa, 1024/1025 around the default index limit, -1, non-literals like 08), joined with the case's path separator (or '.' when it has none, rarely '.' next to another separator), rarely with empty segments or written [in.brackets]; two fifths of the keys of an object are DERIVED from a sibling: a name inside the sibling's setting (a key of the sibling object incl. re-spelled, an index of the sibling list incl. one past its end, index 0/1 of a primitive), another spelling of the sibling (other index literal, other letter case), or an enclosing name; so dotted-vs-nested, value-vs-object, equal-index and case collisions occur at every depth, below lists and inside objects that are themselves spelled with dotted keys. Values: nulls, booleans, small integers, fractions, plain strings, and - always under VarExp, sometimes without - well-formed ${...} expressions (references to settings of the document, to an Env config, an OS variable, missing names, defaults, alternatives, ${x:?msg}, nested, escaped) and malformed ones (20 forms: unterminated, nested unterminated, empty, trailing '${' ...), lone '$' texts. Written once with encoding/json in one of 4 styles into a file whose NAME varies (plain, blanks, %-verbs, quotes, colon/#, '(source)', unicode, no extension) and whose PATH is spelled absolute, with /./, //, dir/../dir or relative to the working directory; that spelling is what the loaders get. Loaded without options and with the case's option set: PathSep \".\" (half), none, \"/\", \"::\"; VarExp (2/5) with ResolveNOOP / Env(config) / ResolveEnv; EnableNumKeys(true); MaxIdx 0,1,2,8,2000; EscapePath() - fresh option values for every call. Discarded: documents a third-party decoder rejects or the three decoders read differently. Oracle (differential, no model of what collides): per front-end the bytes are loaded five ways - NewConfig, NewConfig with MetaData{Source: file}, NewConfigWithFile, ucfg.NewFrom(value returned by the front-end's decoder) without and with that MetaData - i.e. 15 loads per option set. (a) NewConfigWithFile, NewConfig+MetaData and NewFrom+MetaData are indistinguishable: all load or all fail with the same Go error type, ucfg.Error-ness, Reason (sentinel identity or type and text), Class, Path, Message and trace presence; loaded configs dump to equal generic data (or the same Unpack error). (b) the same for NewConfig and NewFrom without MetaData. (c) NewConfigWithFile against NewConfig: both load or both fail; the memory side names no source; the file side names no source other than the path as passed; a refusal that is a ucfg.Error (it is about a setting of the document: duplicate name, value used as object, malformed expression, unsupported top-level type) contains (source:'<path as passed>'); file-side verdict with the source note removed equals the memory-side verdict in every component. (d) the three front-ends give the same verdict (messages compared after replacing the number type names 'int'/'uint'/'float', the one difference the decoders have by design) and, when they load, equal generic data or the same kind of Unpack error. (e) after a successful load, memory and file config agree on the generic dump and on ONE forced typed target (map[string]int, map[string]map[string]bool, []int, map[string][]map[string][2]int, []map[string]int, map[string]map[string]map[string]int): same values, or the same message up to the source note, which must be present when the message's path names a setting that exists in the dump and is not null (not demanded with live references: the failing value may come from an Env config or resolver). When two refusals differ only in WHICH duplicate name they report, both loads are repeated 32 times and the difference is accepted iff the two sets of reports intersect (the library walks a Go map when two objects given for one name are merged; several collisions in them are reported in varying order; counted as a class). N-C18-1 (default strict; constructed away only while that id is open or named in C18_AVOID): the bare cyclic-reference refusal without source. Non-trivial: the library refused the document at load time under at least one of the two option sets. Distinct: hash of the whole case.",
 	Gen:  genReject,
 	Run:  runReject,
 	// expressions and references are evaluated while loading (a dotted key below a reference): a changed library may recurse without bound
